@@ -738,16 +738,17 @@ Fixpoint in_subs (n : nat) (l : list Z) : list port * list Z :=
   | O => ([], l)
   | S k => match l with
            | c :: r => match in_list r with
-                       | Some (q, r1) =>
-                           let '(ps, r') := in_subs k r1 in
-                           ({| p_closed := negb (c =? 0); p_queue := q; p_script := []; p_closes := 0; p_sent := []; p_autoreset := false;
+                       | Some (q, ns :: r1) =>
+                           let '(script, r2) := in_actions (Z.to_nat ns) r1 in
+                           let '(ps, r') := in_subs k r2 in
+                           ({| p_closed := negb (c =? 0); p_queue := q; p_script := script; p_closes := 0; p_sent := []; p_autoreset := false;
                                p_echo := true; p_sleeps := 0; p_calls := 0; p_faults := [] |} :: ps, r')
-                       | None => ([], l)
+                       | _ => ([], l)
                        end
            | [] => ([], l)
            end
   end.
-(* [fuel; block; nsubs; subs (closed, queue)...; receives] : that many receive calls on a MultiPort *)
+(* [fuel; block; nsubs; subs (closed, queue, device script)...; receives] : that many receive calls on a MultiPort *)
 Fixpoint run_multi_n (n fuel : nat) (block : bool) (mp : multi) : list Z :=
   match n with
   | O => [Z.of_nat (m_sleeps mp)]
